@@ -7,7 +7,14 @@ QTY = "quantities::Quantity::"
 LSU = "quantities::LinearScaledUnit::"
 UNIT = "quantities::Unit::"
 
-INL_CONV = {"HasRefUnit::equiv_amount", "LinearScaledUnit::ratio"}
+# "*": every default method of the quantities traits is inlined (so helper
+# extraction into new default methods stays transparent) except the ones the
+# specifications mention by name.
+INL_CONV = {"*"}
+STOP = {"Quantity::iter_units", "Quantity::unit_from_symbol", "Quantity::fmt", "Unit::from_symbol", "Unit::as_qty", "Unit::fmt",
+        "LinearScaledUnit::from_scale", "LinearScaledUnit::is_ref_unit", "HasRefUnit::unit_from_scale", "HasRefUnit::_fit",
+        "HasRefUnit::convert", "HasRefUnit::eq", "HasRefUnit::partial_cmp", "HasRefUnit::add", "HasRefUnit::sub", "HasRefUnit::div",
+        "Quantity::eq", "Quantity::partial_cmp", "Quantity::add", "Quantity::sub", "Quantity::div"}
 
 
 def body(U, path, rule="anchor"):
@@ -19,7 +26,7 @@ def body(U, path, rule="anchor"):
 
 def summarize(U, path, inline=(), keep_tags=False, args=None):
     b = body(U, path)
-    ev = T.Evaluator(U, inline=inline, keep_tags=keep_tags)
+    ev = T.Evaluator(U, inline=inline, keep_tags=keep_tags, stop=STOP)
     try:
         outs = ev.summarize(b, args=args)
     except T.Unsupported as u:
